@@ -575,7 +575,10 @@ func c20Delivery(p *Program, r *Report) {
 				continue
 			}
 			pos = st.Pos()
-			run := nodesWhere(og, func(in2 ssa.Instruction) bool { c2 := callOf(in2); return c2 != nil && c2.StaticCallee() == lc.ExecRecover })
+			run := nodesWhere(og, func(in2 ssa.Instruction) bool {
+				c2 := callOf(in2)
+				return c2 != nil && c2.StaticCallee() == lc.ExecRecover
+			})
 			// the region in which the scheduled message is being handled: the whole handler when it is a parameter, the
 			// type-switch case otherwise (nodes dominated by the ok edge of the assertion to *SchedulerMessage)
 			inRegion := func(n int) bool { return true }
